@@ -59,7 +59,7 @@ LEVEL_TEXT = (
 LEVEL_NOTE = "Trusts eglib/canon.py (iterative canonical numbering) and the query battery. Search, not proof; size axis bounded as stated."
 TECHNIQUE = "round-trip PBT (Hypothesis worlds x configurations) with canonical-form, detachment and query-battery oracles; fresh-interpreter differential; lowered-recursion-limit size family"
 
-OPS_W = ["edge"] * 7 + ["v1", "v2"] * 2 + ["link"] * 2 + ["unlink"] + ["ua", "va"] * 2 + ["ur"] + ["newv_u", "newu"] + ["av", "uf"]
+OPS_W = ["edge"] * 7 + ["v1", "v2"] * 2 + ["link"] * 2 + ["unlink"] + ["ua", "va"] * 2 + ["ur"] + ["newv_u", "newu"] + ["av", "uf"] + ["glink"]
 
 
 def budget(tier):
